@@ -19,10 +19,11 @@ let parse_tab offs_s trans_s : tzdata =
   { trans = trans; offs = offs }
 let show_sa (ntop6: string) (sa: sockaddr) : string =
   let n6 = (fun _ -> bytes_of_str ntop6) in
+  let txt o = match o with Some l -> str_of_bytes l | None -> "ASSERT" in
   Printf.sprintf "fam=%s addr=%s port=%s toIp=%s toIpPort=%s port()=%s"
     (if sa.sa_family = aF_INET6 then "6" else "4")
     (hex_of_bytes sa.sa_addr) (hex_of_bytes sa.sa_port)
-    (str_of_bytes (toIp n6 sa)) (str_of_bytes (toIpPort n6 sa)) (si (inet_port sa))
+    (txt (inet_toIp n6 sa)) (txt (inet_toIpPort n6 sa)) (si (inet_port sa))
 let show_table (tb: tzdata) : string =
   let o = String.concat "," (List.map si tb.offs) in
   let t = String.concat "," (List.map (fun tr -> si tr.tutc ^ ":" ^ string_of_int (int_of_nat tr.tidx)) tb.trans) in
@@ -52,17 +53,24 @@ let () =
         Printf.printf "tab n=%d k=%d # wf=%d su=%d\n" (List.length !tb.trans) (List.length !tb.offs)
           (if wf !tb then 1 else 0) (if sorted_utc !tb.trans then 1 else 0)
     | ["L"; t] ->
-        let (d, off) = toLocalTime !tb (zi t) in
+        let (d, off) = toLocalTime_g !tb (zi t) in
         Printf.printf "L %s %s %s\n" t (show_dt d) (si off)
     | ["F"; y; m; d; h; mi; s; post] ->
         let dt = { year = zi y; month = zi m; day = zi d; hour = zi h; minute = zi mi; second = zi s } in
-        Printf.printf "F %s\n" (si (fromLocalTime !tb dt (post = "1")))
+        Printf.printf "F %s\n" (si (fromLocalTime_g !tb dt (post = "1")))
     | ["R"; t] ->
-        let (d, off) = toLocalTime !tb (zi t) in
-        Printf.printf "R %s %s %s %s %s\n" t (show_dt d) (si off) (si (fromLocalTime !tb d false)) (si (fromLocalTime !tb d true))
+        let (d, off) = toLocalTime_g !tb (zi t) in
+        Printf.printf "R %s %s %s %s %s\n" t (show_dt d) (si off) (si (fromLocalTime_g !tb d false)) (si (fromLocalTime_g !tb d true))
     | ["TS"; us] ->
         let u = zi us in
-        Printf.printf "TS %s|%s|%s\n" (str_of_bytes (ts_toString u)) (str_of_bytes (ts_toFormatted u true)) (str_of_bytes (ts_toFormatted u false))
+        Printf.printf "TS %s|%s|%s\n" (str_of_bytes (ts_toString_g u)) (str_of_bytes (ts_toFormatted_g u true)) (str_of_bytes (ts_toFormatted_g u false))
+    | ["DI"; lo; hi] ->
+        for j = int_of_string lo to int_of_string hi do
+          Printf.printf "DI %d %s\n" j (str_of_bytes (date_toIsoString_g (z_of_int j)))
+        done
+    | ["TA"; us; t; m; _secs; delta; hi; lo] ->
+        Printf.printf "TA %s %s %s %s\n" (si (timestamp_secondsSinceEpoch (zi us))) (si (timestamp_fromUnixTime (zi t) (zi m)))
+          (si (timestamp_addTime (zi us) (zi delta))) (si (timestamp_timeDifference_diff (zi hi) (zi lo)))
     | ["BE"; k; x] ->
         let k = int_of_string k in
         let (e, d) = be_op (nat_of_int k) (zi x) in
@@ -77,6 +85,12 @@ let () =
         let pton6 = (fun _ -> if p6 = "-" then None else Some (unhex p6)) in
         let sa = inet_make pton6 text (zi port) (flag = "1") in
         Printf.printf "IP %s\n" (show_sa (if n6 = "-" then "" else str_of_bytes (unhex n6)) sa)
+    | ["IPS"; texthex; port; flag; scope; p6; n6] ->
+        let text = unhex texthex in
+        let pton6 = (fun _ -> if p6 = "-" then None else Some (unhex p6)) in
+        let sa = set_scope_id (inet_make pton6 text (zi port) (flag = "1")) (zi scope) in
+        Printf.printf "IPS %s scope=%s\n" (show_sa (if n6 = "-" then "" else str_of_bytes (unhex n6)) sa)
+          (if sa.sa_family = aF_INET6 then si sa.sa_scope else "-")
     | ["IPP"; port; lo; v6; n6] ->
         let sa = inet_port_only (zi port) (lo = "1") (v6 = "1") in
         Printf.printf "IPP %s\n" (show_sa (if n6 = "-" then "" else str_of_bytes (unhex n6)) sa)
